@@ -347,8 +347,8 @@ def _np_where1(eng, args, kwargs):
 def _np_flatnonzero(eng, args, kwargs):
     from . import ext_tables
 
-    if len(args) == 1 and not kwargs and isinstance(args[0], PList) and args[0].items is not None:
-        args = [_as_sarr(args[0])]
+    if len(args) == 1 and not kwargs and not _plain_sarr(args[0]) and not (isinstance(args[0], PList) and args[0].items is None):
+        args = [_as_sarr(args[0])]  # a mask of concrete length with symbolic entries (NArr, list): the result still has a symbolic length
     if not args or args[0] is None:
         raise Unsupported("np.flatnonzero operand")
     return ext_tables._np_flatnonzero(eng, args, kwargs)
@@ -605,6 +605,24 @@ _WRAPPED = {}
 _ACTIVE = set()
 
 
+def _close(args, kwargs, result):
+    """concrete-shape operands in, concrete-shape result out: a result array of CONCRETE length that does not stem from an SArr operand of concrete
+    length is handed back as an NArr (its cells are the model's terms), so that it mixes with the other concrete-shape arrays of the carrier
+    (`ids[~np.isin(ids, pid)]`) and has the form a clause written for concrete shapes expects"""
+    ops = []
+    for x in list(args) + list(kwargs.values()):
+        ops.extend(x.items if isinstance(x, PList) and x.items is not None else x if isinstance(x, (tuple, list)) else [x])
+    if any(isinstance(x, SArr) and isinstance(x.n, int) for x in ops):
+        return result  # fixed-size registrations on SArr columns of concrete length (contracts/C06.py) keep that form
+
+    def one(r):
+        if _plain_sarr(r) and isinstance(r.n, int) and not isinstance(r.n, bool) and r.n <= 64:
+            return NArr((r.n,), [Sym(z3.simplify(r.get(q).z), r.kind) for q in range(r.n)], r.kind, r.dtype)
+        return r
+
+    return tuple(one(r) for r in result) if isinstance(result, tuple) else one(result)
+
+
 def _native(fn):
     """last candidate: numpy itself on fully CONCRETE operands (concrete-shape arrays of Python numbers), as the interpreter does for pure builtins"""
     def model(eng, args, kwargs):
@@ -683,7 +701,7 @@ def wrap(fn, primary):
                 err = Unsupported(f"{getattr(fn, '__name__', fn)}: {type(e).__name__}: {e}")
         _ACTIVE.add(fn)
         try:
-            return _try(cands + [_native(fn)], eng, lambda c: c(eng, args, kwargs), err)
+            return _close(args, kwargs, _try(cands + [_native(fn)], eng, lambda c: c(eng, args, kwargs), err))
         finally:
             _ACTIVE.discard(fn)
 
